@@ -70,22 +70,49 @@ def tree_hash(repo=None, extra=""):
     return h.hexdigest()[:24]
 
 
+def _cached(out):
+    return (os.path.exists(os.path.join(out, "facts-lib.json")) and os.path.exists(os.path.join(out, "facts-bin.json"))
+            and os.path.exists(os.path.join(out, "ok")))
+
+
 def build_facts(profile="dev", repo=None, quiet=True):
-    """Returns (dir with facts-lib.json/facts-bin.json, info dict)."""
+    """Returns (dir with facts-lib.json/facts-bin.json, info dict).
+
+    Concurrent checks (the harness may start several at once on a tree whose facts are not cached yet) are
+    serialised by an exclusive lock per target directory: the first one runs the front end, the others wait and
+    then find the facts of that content hash.  Facts are written to a private directory and renamed into place."""
+    import fcntl
     repo = repo or REPO
     ensure_driver()
     t0 = time.time()
     key = tree_hash(repo, profile)
     out = os.path.join(CACHE, "facts", key)
-    lib = os.path.join(out, "facts-lib.json")
-    binf = os.path.join(out, "facts-bin.json")
-    if os.path.exists(lib) and os.path.exists(binf) and os.path.exists(os.path.join(out, "ok")):
+    if _cached(out):
+        try:
+            os.utime(out, None)       # least-recently-used order for the cache clean-up
+        except OSError:
+            pass
         return out, {"cached": True, "key": key, "wall_s": time.time() - t0, "profile": profile}
-    if os.path.exists(out):
-        shutil.rmtree(out)
-    os.makedirs(out)
     target = os.path.join(CACHE, "target-" + profile + os.environ.get("EPBD_TARGET_SUFFIX", ""))
     os.makedirs(target, exist_ok=True)
+    os.makedirs(os.path.join(CACHE, "facts"), exist_ok=True)
+    lock = open(target + ".lock", "w")
+    fcntl.flock(lock, fcntl.LOCK_EX)
+    try:
+        if _cached(out):
+            return out, {"cached": True, "key": key, "wall_s": time.time() - t0, "profile": profile, "waited": True}
+        return _build_locked(profile, repo, key, out, target, t0)
+    finally:
+        fcntl.flock(lock, fcntl.LOCK_UN)
+        lock.close()
+
+
+def _build_locked(profile, repo, key, out, target, t0):
+    tmp = "%s.tmp.%d" % (out, os.getpid())
+    shutil.rmtree(tmp, ignore_errors=True)
+    os.makedirs(tmp)
+    lib = os.path.join(tmp, "facts-lib.json")
+    binf = os.path.join(tmp, "facts-bin.json")
     # cargo replays a cached unit without calling the wrapper: forget the workspace member
     for sub in ("debug", "release"):
         fp = os.path.join(target, sub, ".fingerprint")
@@ -99,7 +126,7 @@ def build_facts(profile="dev", repo=None, quiet=True):
         "LD_LIBRARY_PATH": _sysroot() + "/lib:" + env.get("LD_LIBRARY_PATH", ""),
         "RUSTFLAGS": "-Zmir-opt-level=0 -Awarnings",
         "RUSTC_WORKSPACE_WRAPPER": DRIVER,
-        "EPBD_OUT": out,
+        "EPBD_OUT": tmp,
         "CARGO_TARGET_DIR": target,
     })
     cmd = ["cargo", "+nightly", "check", "--offline", "--lib", "--bins"]
@@ -110,27 +137,30 @@ def build_facts(profile="dev", repo=None, quiet=True):
     info = {"cached": False, "key": key, "profile": profile, "cargo_rc": r.returncode}
     if r.returncode != 0:
         info["cargo_output"] = r.stdout[-4000:]
-        shutil.rmtree(out, ignore_errors=True)
+        shutil.rmtree(tmp, ignore_errors=True)
         raise BuildError("the repository does not compile (cargo check failed)", info)
     if not (os.path.exists(lib) and os.path.exists(binf)):
         info["cargo_output"] = r.stdout[-4000:]
-        shutil.rmtree(out, ignore_errors=True)
+        shutil.rmtree(tmp, ignore_errors=True)
         raise BuildError("front end produced no fact files (wrapper skipped?)", info)
-    open(os.path.join(out, "ok"), "w").write("ok")
+    open(os.path.join(tmp, "ok"), "w").write("ok")
+    shutil.rmtree(out, ignore_errors=True)
+    os.rename(tmp, out)
     info["wall_s"] = time.time() - t0
     _gc_cache(keep=key)
     return out, info
 
 
-def _gc_cache(keep, maxn=24):
+def _gc_cache(keep, maxn=40):
     d = os.path.join(CACHE, "facts")
     try:
         ents = [(os.path.getmtime(os.path.join(d, e)), e) for e in os.listdir(d)]
     except OSError:
         return
     ents.sort(reverse=True)
-    for _m, e in ents[maxn:]:
-        if e != keep:
+    now = time.time()
+    for m, e in ents[maxn:]:
+        if e != keep and now - m > 1800:      # never remove what another running check may be reading
             shutil.rmtree(os.path.join(d, e), ignore_errors=True)
 
 
